@@ -690,6 +690,14 @@ class TaskScenario(ScenarioData):
         if self.currentSlotIdx is None or self.currentSlotIdx < lowerLimit or self.currentSlotIdx > upperLimit:
             self.isRunAway = True
             return False
+        # The slot test above is blind inside the last slot: a date typed on the task itself that
+        # lies after the project end (or before its start) does not fit either
+        own_start = self.property.get("start", self.scenarioIdx) if self.property.provided("start", self.scenarioIdx) else None
+        own_end = self.property.get("end", self.scenarioIdx) if self.property.provided("end", self.scenarioIdx) else None
+        for typed in (own_start, own_end):
+            if isinstance(typed, datetime) and not self.project["start"] <= typed <= self.project["end"]:
+                self.isRunAway = True
+                return False
 
         previous_effort = self.doneEffort
         while self.scheduleSlot():
